@@ -351,7 +351,8 @@ class Ctx:
         tmp = os.path.join(evdir, ".%s.json.tmp" % self.pid)
         json.dump(ev, open(tmp, "w"), indent=1, default=str)
         os.replace(tmp, os.path.join(evdir, "%s.json" % self.pid))
-        shutil.rmtree(self.scratch, ignore_errors=True)
+        if not os.environ.get("VERIF_KEEP_SCRATCH"):
+            shutil.rmtree(self.scratch, ignore_errors=True)
         if self.violations:
             for v in self.violations[:5]:
                 log("violation record:", json.dumps(v, default=str)[:600])
@@ -363,7 +364,8 @@ class Ctx:
 
     def abort(self, msg):
         log("INFRA-FAILURE property=%s: %s" % (self.pid, msg))
-        shutil.rmtree(self.scratch, ignore_errors=True)
+        if not os.environ.get("VERIF_KEEP_SCRATCH"):
+            shutil.rmtree(self.scratch, ignore_errors=True)
         return 2
 
 
